@@ -253,7 +253,8 @@ func checkPeerSide(r *fw.R, id, ctxKey string, peer *RawPeer, effects []wire.Eff
 		if term.Kind == "close" {
 			if !peer.Conf.CloseSeen {
 				r.Violate(id+"/close-not-echoed", fmt.Sprintf("%s: Close frame (%d) received but no Close frame was sent back", ctxKey, term.Code), witness())
-			} else if peer.Conf.CloseCode != term.Code || peer.Conf.CloseRsn != term.Reason {
+			} else if peer.Conf.CloseCode != term.Code || (term.Code == 1005) != (len(peer.Conf.ClosePay) == 0) {
+				// (the echo carries the same code - an empty payload if none was received; the reason is free)
 				r.Violate(id+"/close-echo-differs", fmt.Sprintf("%s: Close frame (%d, %q) received, echoed as (%d, %q)", ctxKey, term.Code, term.Reason, peer.Conf.CloseCode, peer.Conf.CloseRsn), witness())
 			}
 		}
